@@ -15,7 +15,7 @@ import re
 from vfacts import strip, walk, method_name, must_pass_through, is_node
 
 RULE = 'CACHELIFE'
-FLOOR = 10
+FLOOR = 12
 ANCHORS = ['Cache::DeleteElementF::operator()']
 
 
